@@ -250,7 +250,7 @@ def run_case(case):
         dest.merge(src, strict=strict)
         raised = None
     except Exception as exc:
-        raised = type(exc).__name__
+        raised = env.exc_label(exc)
     after, safter = snapshot.snap(dest), snapshot.snap(src)
     fails = []
     vclasses = sorted(var_class(v) for v in case["vars"])
@@ -269,7 +269,7 @@ def run_case(case):
                 d[0] if d else "?", raised))
         if cls == "must-succeed":
             fail("compatible-merge-refused", raised)
-        elif cls == "must-raise-valueerror" and raised != "ValueError":
+        elif cls == "must-raise-valueerror" and not env.is_a(raised, "ValueError"):
             fail("conflict-refused-with-wrong-exception", raised, "ValueError")
     else:
         if cls in ("must-raise-valueerror", "must-raise"):
@@ -507,7 +507,7 @@ def run_seq_case(case):
             dobj.merge(sobj, strict=strict)
             raised = None
         except Exception as exc:
-            raised = type(exc).__name__
+            raised = env.exc_label(exc)
         execs += 1
         whole_a, src_a, others_a = snapshot.snap(dest), snapshot.snap(src), [snapshot.snap(x) for x in others]
         for o, sn in [(dest, whole_a), (src, src_a)] + list(zip(others, others_a)):
@@ -532,7 +532,7 @@ def run_seq_case(case):
                      explain="dest differs at %s after %s" % (d[0] if d else "?", raised))
             if cls == "must-succeed":
                 fail("compatible-merge-refused", raised)
-            elif cls == "must-raise-valueerror" and raised != "ValueError":
+            elif cls == "must-raise-valueerror" and not env.is_a(raised, "ValueError"):
                 fail("conflict-refused-with-wrong-exception", raised, "ValueError")
         else:
             if cls in ("must-raise-valueerror", "must-raise"):
